@@ -6,6 +6,10 @@ sys.path.insert(0, ROOT)
 from verif.engine import srcmodel, report
 from verif.selftest import twins
 import importlib
+if sys.argv[1] == "--dump":
+    # tools/twin_run.py --dump <twin> <relpath>: print the twin of one file
+    print(twins.TWINS[sys.argv[2]](open(os.path.join(srcmodel.REPO_ROOT, sys.argv[3])).read(), 0))
+    sys.exit(0)
 prop = sys.argv[1].upper()
 names = sys.argv[2:] or list(twins.TWINS)
 P0 = srcmodel.Program()
@@ -21,6 +25,6 @@ for t in names:
         vio = [o for o in run.violations() if report.known_match(prop, o, known) is None]
         print(f"{prop} twin {t}: {'SILENT' if not vio else 'FALSE ALARM'} ({len(run.obs)} obligations)")
         for o in vio:
-            print("   ", o.rule, o.function, "|", o.construct[:140])
+            print("   ", o.rule, o.function, "|", o.construct[:int(os.environ.get("W", "140"))])
     except srcmodel.AnalysisError as e:
         print(f"{prop} twin {t}: ANALYSIS-ERROR {e}")
